@@ -9,7 +9,7 @@ import vlib
 ECOS = ["npm", "cargo", "composer", "conan", "gem", "hex", "pypi", "nuget", "maven"]
 
 def vectors(run, wide=False):
-    cfg = vlib.cfg_consts(E=set(ECOS), XS={0, 1, 2, 9, 10, 99} if wide else {0, 1, 2, 9}, ZS={0, 3, 9, 10} if wide else {0, 3, 9}) + "INIT Init\nNEXT Next\nINVARIANT Emit\nINVARIANT RowSane\nCHECK_DEADLOCK FALSE\n"
+    cfg = vlib.cfg_consts(E=set(ECOS), XS={0, 1, 2, 9, 10, 99, 100} if wide else {0, 1, 2, 9}, ZS={0, 3, 9, 10, 99} if wide else {0, 3, 9}) + "INIT Init\nNEXT Next\nINVARIANT Emit\nINVARIANT RowSane\nCHECK_DEADLOCK FALSE\n"
     lines, st, dt = vlib.tlc(run, "MC_Shorthand", cfg, workers=8, timeout=900)
     return vlib.tagged(lines, "VEC")
 
@@ -73,7 +73,7 @@ def check(run):
     run.assumptions = ["the table of Shorthand.tla states each ecosystem's documented interval (sources cited in the module); "
                        "probe order is the 4-tuple order (numbers, then pre < final < post), which C03/C08/C09 bind to Compare",
                        "pre-release probes only just below a full base and, for npm, at the documented '-0' upper bound; composer probes stable; pypi probes final or post"]
-    return vlib.finish(run, rule="every row of the shorthand table (9 ecosystems x constructs x arities x bases {0,1,2,9}^2 x {0,3,9}; thorough: {0,1,2,9,10,99}^2 x {0,3,9,10}) x boundary probes (base, below base, interior, last before upper bound, upper bound, pre-release of upper bound for npm, above)",
+    return vlib.finish(run, rule="every row of the shorthand table (9 ecosystems x constructs x arities x bases {0,1,2,9}^2 x {0,3,9}; thorough: {0,1,2,9,10,99,100}^2 x {0,3,9,10,99}) x boundary probes (base, below base, interior, last before upper bound, upper bound, pre-release of upper bound for npm, above)",
                        exhaustive=True, judged=judged, min_judged=1000)
 
 def replay(d):
